@@ -15,7 +15,8 @@ class KDSubset(Subset):
         if item == "dataset":
             return getattr(super(), item)
         if item.startswith("getall_"):
-            # subsample getitem_ with the indices
+            # subsample getitem_ with the indices (AttributeError if the wrapped dataset has no such getall_)
+            getattr(self.dataset, item)
             return partial(self._call_getall, item)
         return getattr(self.dataset, item)
 
